@@ -523,7 +523,12 @@ pub fn gen_parse(rng: &mut Rng, sw: &Swarm, now: &Reading) -> OpKind {
             time_parts.push(T::Frac);
         }
         if matches!(time_parts.first(), Some(T::H12)) && rng.chance(3, 5) {
-            time_parts.push(T::Merid);
+            if rng.chance(1, 4) {
+                // meridian indicator BEFORE the 12-hour field (and everything else)
+                time_parts.insert(0, T::Merid);
+            } else {
+                time_parts.push(T::Merid);
+            }
         }
         if ty == Ty::Time && time_parts.is_empty() {
             time_parts.push(T::H24);
@@ -691,7 +696,8 @@ pub fn gen_parse(rng: &mut Rng, sw: &Swarm, now: &Reading) -> OpKind {
                 b.toks.last().map(|t| &t.sem),
                 Some(Sem::Day { .. }) | Some(Sem::Year { .. }) | Some(Sem::Month { .. }) | Some(Sem::Doy { .. })
             );
-            if last_numeric && b.rng.chance(1, 6) && !truncate {
+            let first_is_merid = matches!(time_parts.first(), Some(T::Merid));
+            if last_numeric && !first_is_merid && b.rng.chance(1, 6) && !truncate {
                 b.toks.push(Tok {
                     pic: "T".into(),
                     txt: "T".into(),
